@@ -1,7 +1,6 @@
 use std::path::Path;
 use std::time::Duration;
 
-use ast::ast as A;
 use parser::event::Event;
 use serde_json::{Value, json};
 
@@ -42,166 +41,14 @@ pub fn run(args: &[String]) -> i32 {
     0
 }
 
+#[cfg(feature = "asttrees")]
 fn ast_mode(text: &str) -> Value {
-    let path = Path::new("/nonexistent/main.gom");
-    match compiler::pipeline::pipeline::parse_ast_file(path, text) {
-        Ok(file) => {
-            let mut fns = serde_json::Map::new();
-            let mut sigs = serde_json::Map::new();
-            for item in file.toplevels.iter() {
-                if let A::Item::Fn(f) = item {
-                    fns.insert(f.name.0.clone(), expr(&f.body));
-                    sigs.insert(f.name.0.clone(), json!({"params": f.params.iter().map(|(_, t)| type_expr(t)).collect::<Vec<_>>(),
-                                                          "ret": f.ret_ty.as_ref().map(type_expr)}));
-                }
-            }
-            json!({"verdict": "ok", "fns": fns, "sigs": sigs})
-        }
-        Err(e) => {
-            let d: Vec<Value> = e.diagnostics().iter().map(diag_json).collect();
-            let verdict = match e {
-                compiler::pipeline::pipeline::CompilationError::Parser { .. } => "parser",
-                _ => "lower",
-            };
-            json!({"verdict": verdict, "diags": d})
-        }
-    }
+    crate::ast_export::ast_mode(text)
 }
 
-/// type expressions as trees: {k: "con", n} | {k: "tuple", ts} | {k: "app", n, as} | {k: "array", len, e} | {k: "fn", ps, r} | {k: "dyn", n}
-pub fn type_expr(t: &A::TypeExpr) -> Value {
-    use A::TypeExpr::*;
-    let con = |n: &str| json!({"k": "con", "n": n});
-    match t {
-        TUnit => con("unit"),
-        TBool => con("bool"),
-        TInt8 => con("int8"),
-        TInt16 => con("int16"),
-        TInt32 => con("int32"),
-        TInt64 => con("int64"),
-        TUint8 => con("uint8"),
-        TUint16 => con("uint16"),
-        TUint32 => con("uint32"),
-        TUint64 => con("uint64"),
-        TFloat32 => con("float32"),
-        TFloat64 => con("float64"),
-        TString => con("string"),
-        TTuple { typs } => json!({"k": "tuple", "ts": typs.iter().map(type_expr).collect::<Vec<_>>()}),
-        TCon { path } => con(&path_str(path)),
-        TDyn { trait_path } => json!({"k": "dyn", "n": path_str(trait_path)}),
-        TApp { ty, args } => json!({"k": "app", "f": type_expr(ty), "as": args.iter().map(type_expr).collect::<Vec<_>>()}),
-        TArray { len, elem } => json!({"k": "array", "len": len, "e": type_expr(elem)}),
-        TFunc { params, ret_ty } => json!({"k": "fn", "ps": params.iter().map(type_expr).collect::<Vec<_>>(), "r": type_expr(ret_ty)}),
-    }
-}
-
-fn path_str(p: &A::Path) -> String {
-    p.segments
-        .iter()
-        .map(|s| s.ident.0.clone())
-        .collect::<Vec<_>>()
-        .join("::")
-}
-
-fn lit(kind: &str, ty: &str, v: &str) -> Value {
-    json!({"k": kind, "ty": ty, "v": v})
-}
-
-pub fn expr(e: &A::Expr) -> Value {
-    use A::Expr::*;
-    match e {
-        EPath { path, .. } => json!({"k": "path", "p": path_str(path)}),
-        EUnit { .. } => json!({"k": "unit"}),
-        EBool { value, .. } => json!({"k": "bool", "v": value}),
-        EInt { value, .. } => lit("int", "", value),
-        EInt8 { value, .. } => lit("int", "int8", value),
-        EInt16 { value, .. } => lit("int", "int16", value),
-        EInt32 { value, .. } => lit("int", "int32", value),
-        EInt64 { value, .. } => lit("int", "int64", value),
-        EUInt8 { value, .. } => lit("int", "uint8", value),
-        EUInt16 { value, .. } => lit("int", "uint16", value),
-        EUInt32 { value, .. } => lit("int", "uint32", value),
-        EUInt64 { value, .. } => lit("int", "uint64", value),
-        EFloat { value, .. } => json!({"k": "float", "ty": "", "v": format!("{:?}", value)}),
-        EFloat32 { value, .. } => lit("float", "float32", value),
-        EFloat64 { value, .. } => lit("float", "float64", value),
-        EString { value, .. } => json!({"k": "str", "bytes": value.as_bytes()}),
-        EConstr {
-            constructor, args, ..
-        } => json!({"k": "constr", "p": path_str(constructor), "as": args.iter().map(expr).collect::<Vec<_>>()}),
-        EStructLiteral { name, fields, .. } => json!({"k": "struct", "p": path_str(name),
-            "fs": fields.iter().map(|(f, e)| json!({"f": f.0, "e": expr(e)})).collect::<Vec<_>>()}),
-        ETuple { items, .. } => json!({"k": "tuple", "es": items.iter().map(expr).collect::<Vec<_>>()}),
-        EArray { items, .. } => json!({"k": "array", "es": items.iter().map(expr).collect::<Vec<_>>()}),
-        ELet { pat, value, annotation, .. } => {
-            json!({"k": "let", "p": pat_json(pat), "pt": pat_tree(pat), "ann": annotation.is_some(),
-                "annt": annotation.as_ref().map(type_expr), "e": expr(value)})
-        }
-        EClosure { params, body, .. } => json!({"k": "lam",
-            "ps": params.iter().map(|p| p.name.0.clone()).collect::<Vec<_>>(),
-            "pts": params.iter().map(|p| p.ty.as_ref().map(type_expr)).collect::<Vec<_>>(), "b": expr(body)}),
-        EMatch { expr: e, arms, .. } => json!({"k": "match", "e": expr(e),
-            "arms": arms.iter().map(|a| json!({"p": pat_json(&a.pat), "pt": pat_tree(&a.pat), "b": expr(&a.body)})).collect::<Vec<_>>()}),
-        EIf {
-            cond,
-            then_branch,
-            else_branch,
-            ..
-        } => json!({"k": "if", "c": expr(cond), "t": expr(then_branch), "e": expr(else_branch)}),
-        EWhile { cond, body, .. } => json!({"k": "while", "c": expr(cond), "b": expr(body)}),
-        EGo { expr: e, .. } => json!({"k": "go", "e": expr(e)}),
-        ECall { func, args, .. } => {
-            json!({"k": "call", "f": expr(func), "as": args.iter().map(expr).collect::<Vec<_>>()})
-        }
-        EUnary { op, expr: e, .. } => json!({"k": "un", "op": op.symbol(), "e": expr(e)}),
-        EBinary { op, lhs, rhs, .. } => {
-            json!({"k": "bin", "op": op.symbol(), "l": expr(lhs), "r": expr(rhs)})
-        }
-        EProj { tuple, index, .. } => json!({"k": "proj", "e": expr(tuple), "i": index}),
-        EField { expr: e, field, .. } => json!({"k": "field", "e": expr(e), "f": field.0}),
-        EBlock { exprs, .. } => json!({"k": "block", "es": exprs.iter().map(expr).collect::<Vec<_>>()}),
-    }
-}
-
-/// patterns as trees
-pub fn pat_tree(p: &A::Pat) -> Value {
-    use A::Pat::*;
-    match p {
-        PVar { name, .. } => json!({"k": "pvar", "n": name.0}),
-        PUnit { .. } => json!({"k": "punit"}),
-        PBool { value, .. } => json!({"k": "pbool", "v": value}),
-        PInt { value, .. } => json!({"k": "pint", "ty": "", "v": value}),
-        PInt8 { value, .. } => json!({"k": "pint", "ty": "int8", "v": value}),
-        PInt16 { value, .. } => json!({"k": "pint", "ty": "int16", "v": value}),
-        PInt32 { value, .. } => json!({"k": "pint", "ty": "int32", "v": value}),
-        PInt64 { value, .. } => json!({"k": "pint", "ty": "int64", "v": value}),
-        PUInt8 { value, .. } => json!({"k": "pint", "ty": "uint8", "v": value}),
-        PUInt16 { value, .. } => json!({"k": "pint", "ty": "uint16", "v": value}),
-        PUInt32 { value, .. } => json!({"k": "pint", "ty": "uint32", "v": value}),
-        PUInt64 { value, .. } => json!({"k": "pint", "ty": "uint64", "v": value}),
-        PString { value, .. } => json!({"k": "pstr", "bytes": value.as_bytes()}),
-        PConstr { constructor, args, .. } => json!({"k": "pcon", "p": path_str(constructor), "as": args.iter().map(pat_tree).collect::<Vec<_>>()}),
-        PStruct { name, fields, .. } => json!({"k": "pstruct", "p": path_str(name),
-            "fs": fields.iter().map(|(f, q)| json!({"f": f.0, "p": pat_tree(q)})).collect::<Vec<_>>()}),
-        PTuple { pats, .. } => json!({"k": "ptuple", "ps": pats.iter().map(pat_tree).collect::<Vec<_>>()}),
-        PWild { .. } => json!({"k": "pwild"}),
-    }
-}
-
-fn pat_json(p: &A::Pat) -> Value {
-    // patterns are exported through their Debug rendering with syntax pointers removed (enough for equality checks)
-    let s = format!("{:?}", p);
-    let mut out = String::new();
-    let mut rest = s.as_str();
-    while let Some(i) = rest.find("astptr:") {
-        out.push_str(&rest[..i]);
-        // skip to the matching close of the pointer value: "astptr: SyntaxNodePtr { kind: .., range: a..b }"
-        let tail = &rest[i..];
-        let end = tail.find('}').map(|j| j + 1).unwrap_or(tail.len());
-        rest = &tail[end..];
-    }
-    out.push_str(rest);
-    Value::from(out)
+#[cfg(not(feature = "asttrees"))]
+fn ast_mode(_text: &str) -> Value {
+    json!({"verdict": "unavailable", "msg": "the harness was built without the AST tree export"})
 }
 
 fn cst(text: &str) -> Value {
